@@ -165,6 +165,8 @@ macro_rules! harnesses {
 pub mod refs;
 pub mod rd;
 pub mod c02;
+pub mod alloc_track;
+pub mod c03;
 pub mod c04;
 pub mod c07;
 pub mod c09;
@@ -176,11 +178,12 @@ pub mod c18;
 pub mod c19;
 
 pub fn dispatch_all(name: &str, s: &mut ReplaySrc) -> bool {
-    c02::dispatch(name, s) || c04::dispatch(name, s) || c07::dispatch(name, s) || c09::dispatch(name, s) || c10::dispatch(name, s) || c11::dispatch(name, s) || c17::dispatch(name, s) || c18::dispatch(name, s) || c19::dispatch(name, s)
+    c02::dispatch(name, s) || c03::dispatch(name, s) || c04::dispatch(name, s) || c07::dispatch(name, s) || c09::dispatch(name, s) || c10::dispatch(name, s) || c11::dispatch(name, s) || c17::dispatch(name, s) || c18::dispatch(name, s) || c19::dispatch(name, s)
 }
 pub fn all_names() -> Vec<&'static str> {
     let mut v = Vec::new();
     v.extend(c02::names());
+    v.extend(c03::names());
     v.extend(c04::names());
     v.extend(c07::names());
     v.extend(c09::names());
